@@ -8,9 +8,12 @@ CONSTANTS
   HeapTakeover = 10
   MaxCalls = 4
   NTerms = 2
-  Family = "flat2"
+  Family = "core2"
   DropK1 = FALSE
   Queries <- MCQueries
+  FixEmptySnapshot = FALSE
+  FixBoolAdvance = FALSE
+  FixShouldMin = FALSE
   FirstAdvanceOK <- FirstAdvNoQ2
 INVARIANT ResultOK
 INVARIANT NoPanic
